@@ -266,6 +266,9 @@ def build_query(identifier, session, query=None):
                 pass
             elif vr in ["DA", "TM", "DT"] and "-" in val:
                 pass
+            elif vr == "UI" and elem.VM > 1:
+                # List of UID matching
+                pass
             else:
                 # print('Performing single value matching...')
                 query = _search_single_value(elem, session, query)
